@@ -25,6 +25,38 @@ CLAIMED = {
              "Induction over the section, no bound. Tie: all 19 531 sections over {0,1,2,3,255} up to length 6 (7 in "
              "thorough), boundary value lengths at every truncation point, sections of accepted headers.",
         ref="7-C11", technique="Coq proof (iterator refines the inductive Walk relation) + differential correspondence with extracted model and walk oracle"),
+    "C14": dict(
+        text="Theorem C14 (Props/C14.v): for every accepted header the model's views satisfy all twelve identities of the "
+             "property (address bytes ++ TLV bytes = payload, address view size per family, length/len/length field, "
+             "family = wire nibble = family of the decoded value, fields = big-endian decoding of the address view, helper "
+             "methods, owned = borrowed). For all inputs, no bound. Tie: views2 stream (accessor values of borrowed and owned "
+             "header) on 140k inputs; owned-copy independence observed on the implementation (buffer overwritten and freed).",
+        ref="7-C14", technique="Coq proof of the view identities + differential correspondence on accessor values"),
+    "C17": dict(
+        text="Theorems C17_short/partial/fill (Props/C17.v): Incomplete(n) iff n = |x| < 16; Partial(have, need) implies "
+             "have = |x|-16, need = declared length, have < need; appending exactly need-have arbitrary bytes succeeds, fewer "
+             "give Partial(have+k, need). For all inputs. Tie: 470k inputs incl. every prefix of valid headers with fill cases.",
+        ref="7-C17", technique="Coq proof (closed form of the parser) + differential correspondence with fill cases"),
+    "C20": dict(
+        text="Theorems C20/C20_to_bytes/C20_int/C20_pair/C20_refuse (Props/C20.v): for every payload kind and writer with "
+             "contents + encoding <= 65551 bytes, write_to returns the encoding's length and appends exactly the reference "
+             "encoding (Spec/Encoder.v); integers are big-endian two's complement at natural width; oversize values are "
+             "refused with the writer untouched. Tie: 40k writer cases over all kinds, all 12 integer types at their bounds, "
+             "the band around the limit.",
+        ref="7-C20", technique="Coq proof (write_to = reference encoder) + differential correspondence on Writer/to_bytes"),
+    "C10": dict(
+        text="Theorems C10/C10_closed/C10_reserve/C10_batch (Props/C10.v): for every constructor and every finite call "
+             "history, brun is characterised completely: success iff all payloads fit and the length is encodable, and then "
+             "the output is signature, control bytes, length field, address block, payload encodings in call order; reserves "
+             "and batching never change the outcome. Induction over histories, no bound. Tie: 210k histories incl. all "
+             "histories over a 10-op alphabet to depth 3, paired (reserve-erased / batch-flattened) variants, size boundary.",
+        ref="7-C10", technique="Coq proof (builder state machine refines reference encoder, by simulation invariant) + differential correspondence on call histories"),
+    "C09": dict(
+        text="Theorems C09_field/C09_overflow/C09_value (Props/C09.v): on success bytes 14-15 equal the explicit length in "
+             "force (last set_length if Some) else the number of bytes after the fixed part; no explicit length and > 65535 "
+             "bytes fails; any oversize TLV value / slice anywhere in the history fails. For every history. Tie: 32k histories "
+             "incl. every placement of set_length relative to the first write (exhaustive to depth 3) and the 65535/65536 boundary.",
+        ref="7-C09", technique="Coq proof (corollary of the builder closed form) + differential correspondence on call histories"),
 }
 
 NOT_YET = "not yet claimed: model, theorems and correspondence stream for this property are still being built (DESIGN 10.4)"
